@@ -23,7 +23,7 @@ Lines == ndJsonDeserialize(IOEnv.LINES)
 VARIABLES i, kind
 vars == <<i, kind>>
 
-Kinds == {"lower", "mixed", "squeeze", "alias", "all"}
+Kinds == {"lower", "mixed", "squeeze", "alias", "alias2", "all"}
 
 LowC(c) == IF c >= 65 /\ c <= 90 THEN c + 32 ELSE c
 Lower(s) == [j \in 1..Len(s) |-> LowC(s[j])]
@@ -82,6 +82,13 @@ Squeeze(l, ts, j) ==
            txt == Prefix(l) \o ShowToks(cand, 1) IN
        IF Meaning(Lex(txt)) = Meaning(l) /\ ShowL(Lex(txt)) = ShowL(l) THEN Squeeze(l, cand, j) ELSE Squeeze(l, ts, j + 1)
 
+\* the other spellings of the two-character comparisons: =< / = <, => / = >, < > / > <
+Alias2(ts) == [j \in 1..Len(ts) |->
+                 IF ts[j] = Tok("op", <<60, 61>>) THEN Tok("unk", <<61, 32, 60>>)
+                 ELSE IF ts[j] = Tok("op", <<62, 61>>) THEN Tok("unk", <<61, 62>>)
+                 ELSE IF ts[j] = Tok("op", <<60, 62>>) THEN Tok("unk", <<62, 32, 60>>)
+                 ELSE ts[j]]
+
 Canon(n) == Lines[n].x
 Variant(n, k) ==
   LET l == Lex(Canon(n)) IN
@@ -89,6 +96,7 @@ Variant(n, k) ==
     [] k = "mixed" -> Styled(l, "mixed", FALSE)
     [] k = "squeeze" -> Prefix(l) \o ShowToks(Squeeze(l, l.toks, 1), 1)
     [] k = "alias" -> Styled([l EXCEPT !.toks = DropLet(l.toks, 1)], "upper", TRUE)
+    [] k = "alias2" -> Styled([l EXCEPT !.toks = Alias2(DropLet(l.toks, 1))], "upper", TRUE)
     [] k = "all" -> Styled([l EXCEPT !.toks = Squeeze(l, l.toks, 1)], "lower", FALSE)
 
 \* listing modulo the optional LET and the remark marker
@@ -110,7 +118,7 @@ SpellingSound ==
   (kind # "none" /\ i <= Len(Lines)) =>
     LET c == Lex(Canon(i))  v == Lex(Variant(i, kind)) IN
     /\ v.num = c.num
-    /\ (RemAt(c.toks, 1) = 0 \/ kind \notin {"alias"}) =>
+    /\ (RemAt(c.toks, 1) = 0 \/ kind \notin {"alias", "alias2"}) =>
          (Meaning([v EXCEPT !.toks = NoLetMarker(@, 1)]) = Meaning([c EXCEPT !.toks = NoLetMarker(@, 1)]))
     /\ (RemAt(c.toks, 1) = 0) => Listed(v) = Listed(c)
 Emit == (kind # "none" /\ i <= Len(Lines)) =>
